@@ -785,6 +785,12 @@ def to_hashable(  # noqa: C901, PLR0911, PLR0912
         return (m, tp, (obj.typecode, tuple(obj)))
 
     # Handle numpy arrays
+    if "numpy" in sys.modules and isinstance(obj, sys.modules["numpy"].ma.MaskedArray):
+        # The masked entries are `numpy.ma.masked`, which is not hashable
+        np_ = sys.modules["numpy"]
+        data = to_hashable(np_.asarray(obj.data), fallback_to_pickle)
+        mask = to_hashable(np_.ma.getmaskarray(obj), fallback_to_pickle)
+        return (m, tp, (data, mask))
     if "numpy" in sys.modules and isinstance(obj, sys.modules["numpy"].ndarray):
         return (m, tp, (obj.shape, obj.dtype.str, tuple(obj.flatten())))
 
